@@ -19,9 +19,12 @@ import (
 // run is the body of every shard.  Phases run one after the other and record
 // into the same lib.Ctx under their own counter prefixes.
 func run(c *lib.Ctx) {
+	// The schedules phase is small; run it first so that the BFS may use the
+	// rest of the budget.
+	phaseSchedules(c)
 	phaseBFS(c)
 
-	// ---- PHASE 2 HOOK ------------------------------------------------------
+	// ---- PHASE 2 HOOK (implemented in sched.go) ------------------------------------------------------
 	// The concurrent part (updates vs. hourly flush vs. API reads under the E2
 	// scheduler) goes here:
 	//
@@ -51,7 +54,8 @@ func replay(c *lib.Ctx, raw json.RawMessage) string {
 		return "bad replay case: " + err.Error()
 	}
 	switch rc.Phase {
-	// ---- PHASE 2 HOOK: case "schedules": return replaySchedules(c, raw) -----
+	case "schedules":
+		return replaySchedules(c, raw)
 	default:
 		return "unknown replay phase " + rc.Phase
 	}
@@ -75,8 +79,13 @@ func evidence(m *lib.Merged) map[string]any {
 		"reads_with_counts_in_oldest_window_hour":                  m.Counters["reads_oldest_window_hour_counted"],
 		"rule": "BFS over histories of update/advance-hours/flush/restart/set-limit/clear/read on the real stats.StatsCtx (bbolt file on tmpfs, UnitID = virtual hour, real HTTP handlers through httptest); a state is (dump of the current unit + every bbolt bucket + limit through a hook, reference map hour->counters, virtual hour); after EVERY transition GET /control/stats is decoded and compared with the reference: five totals, hourly series per hour and their sums, daily series <= totals, nothing outside (current-limit, current]. non-trivial = transition executed while at least one query is counted in the reference",
 	}
-	// ---- PHASE 2 HOOK: add the schedule counters (schedules, preemption
-	// bound, ...) to ev here. ------------------------------------------------
+	ev["schedules_explored"] = m.Counters["sched_executions"]
+	ev["scheduling_points"] = m.Counters["sched_points"]
+	ev["sched_scenarios_completed_bound_0"] = m.Distinct["sched_scenarios_bound_0"]
+	ev["sched_scenarios_completed_bound_1"] = m.Distinct["sched_scenarios_bound_1"]
+	ev["sched_scenarios_completed_bound_2"] = m.Distinct["sched_scenarios_bound_2"]
+	ev["sched_distinct_outcomes"] = m.Distinct["sched_outcomes"]
+	ev["rule"] = ev["rule"].(string) + ". Schedules: 10 thread sets (Update, Update of another category, hour rollover + flush, GET /control/stats, reset) x {0, 2} earlier updates, all interleavings at the lock/atomic operations of stats and bbolt with <=1 (quick) / <=2 (thorough) preemptions; every response must be internally consistent (no category above the total, series sum to totals) and after quiescence every update is counted exactly once"
 	return ev
 }
 
